@@ -1,7 +1,7 @@
 CHECK = {
     "obligations": ["C17.c17_no_deadlock", "C17.c17_single_record", "C17.gen_rank_ordered", "C17.gen_lock_classes",
                     "C17.gen_programs_nontrivial", "C17.gen_orphan_repair", "C17.gen_structure",
-                    "Locks.locks_rank_ordered_no_deadlock", "Locks.ok_map", "Panel.inv_step",
+                    "Locks.locks_rank_ordered_no_deadlock", "Locks.ok_map", "Panel.inv_step", "Panel.inv_refusedCleanup", "C17.c17_single_record_either",
                     "C17.pinned_not_rank_orderable", "C17.pinned_deadlock_reachable", "C17.pinned_exec_deadlock",
                     "C17.c17_orphan_witness_pinned", "C17.c17_unguarded_delete_witness", "C17.c17_orphan_schedule_repaired"],
     "scenarios": ["C17"],
@@ -10,7 +10,7 @@ CHECK = {
     "rule": "replays of the two Lean witness schedules on the real userPanel/ActiveUser over a bbolt store (deadlock: two upload rounds "
             "parked/released at the updateUsageQueue VerifPoint; orphan: admission vs last-session closure, plain and with the closer parked at "
             "ActiveUser.CloseSession:beforeTerminate; double termination of one record with a reconnect in between), each in its own process, "
-            "plus 3 (quick) / 8 (thorough) seeded random overlaps of admissions (with the dispatcher's CloseSession-on-refusal), closures, upload rounds "
+            "plus 3 (quick) / 8 (thorough) seeded random overlaps of admissions (with the dispatcher's clean-up of a refused connection, whichever the tree has), closures, upload rounds "
             "(one user running out of credit so that commits carry TERMINATE verdicts) and traffic (8 goroutines x 400/2500 operations) under a watchdog. non-trivial = every case "
             "overlaps at least two bookkeeping operations; distinct by case name",
     "assumptions": ["operations performed while holding a bookkeeping lock that are not themselves bookkeeping-lock acquisitions (bbolt calls, "
